@@ -34,7 +34,8 @@ Record case := mkCase {
   c_add_cmt : res (list row);          (* dataset of add_cmt(model) *)
   c_add_cmt_meta : bool;               (* existing columns, their order and dtypes kept; new column last, typed compartment *)
   c_add_admid : res (list row);
-  c_add_admid_meta : bool
+  c_add_admid_meta : bool;
+  c_obs_keep : list (Z * Z)            (* get_observations(keep_index=True): label, DV *)
 }.
 
 Fixpoint list_eqb {A : Type} (eqb : A -> A -> bool) (a b : list A) : bool :=
@@ -110,7 +111,8 @@ Definition corr (c : case) : list nat :=
        && match c_tad c with Ok _ => Bool.eqb (expand_id_is_int d) (c_tad_idint c) | Err _ => true end) 5 ++
   tag (series_eqb (obs_impl d) (c_obs c) && res_eqb series_eqb (doses_impl d) (c_doses c)
        && res_eqb Z.eqb (nobs_impl d) (c_nobs c)
-       && res_eqb (list_eqb zz_eqb) (nobs_per_impl d) (c_nobs_per c)) 6 ++
+       && res_eqb (list_eqb zz_eqb) (nobs_per_impl d) (c_nobs_per c)
+       && list_eqb zz_eqb (obs_keep_impl d) (c_obs_keep c)) 6 ++
   tag (list_eqb row_eqb (map unlab (baselines_impl d)) (c_baselines c)
        && res_eqb (list_eqb Bool.eqb) (tvc_impl (c_ncov c) d) (c_tvc c)
        && list_eqb Z.eqb (ids_impl d) (c_ids c) && (nind_impl d =? c_nind c)
@@ -155,7 +157,17 @@ Definition oracle (c : case) : list nat :=
       tag (forallb (fun p => negb (0 <? r_amt (fst p)) || (snd p =? 0)) l) 17 ++
       tag (list_eqb row_eqb (map (fun p => unlab (fst p)) l) (map unlab rows)) 18 ++
       tag (Bool.eqb (c_tad_idint c) (id_is_int s)) 19 ++
-      (if has_addl s then [] else tag (list_eqb Z.eqb (map snd l) (tad_walk d)) 28)
+      (if has_addl s then
+         (* with ADDL: the walk over the implementation's own expanded frame, at the original records *)
+         match c_expand c with
+         | Ok fr => if expansion_applies d
+                    then tag (list_eqb Z.eqb (map snd l)
+                                (map snd (filter (fun p : (row * bool) * Z => negb (snd (fst p)))
+                                                 (combine fr (tad_walk (with_rows d (map fst fr) true)))))) 28
+                    else []
+         | Err _ => []
+         end
+       else tag (list_eqb Z.eqb (map snd l) (tad_walk d)) 28)
   | Err _ => if has_dose s then [18%nat] else []
   end ++
   tag (series_eqb (c_obs c) (Series (obs_walk s rows))) 20 ++
@@ -190,6 +202,7 @@ Definition oracle (c : case) : list nat :=
             && (has_admid s || match c_admid c with Ok l => list_eqb Z.eqb (map r_admid rows') (map snd l) | Err _ => false end)) 33
    | Err _ => tag (match c_admid c with Err _ => true | Ok _ => false end) 33
    end) ++
+  tag (list_eqb zz_eqb (c_obs_keep c) (obs_keep_walk s rows)) 37 ++
   tag (list_eqb Z.eqb (c_ids c) (ids_walk d) && (c_nind c =? Z.of_nat (length (ids_walk d)))) 34 ++
   (if Nat.eqb (c_ncov c) 0 then [] else tag (res_eqb (list_eqb zl_eqb) (c_covbase c) (Ok (covbase_walk d))) 35).
 
@@ -222,6 +235,12 @@ Definition guard_tags (c : case) : list nat :=
   tag (forallb (fun v => negb (v =? 4)) (evid_walk d)) 219 ++
   tag (id_named_ID s) 220 ++ tag (negb (Nat.eqb (c_ncov c) 0)) 221 ++
   (* expansion with the individuals not in ascending id order (C14-EXPAND-ID-ORDER) *)
-  tag (negb (expansion_applies d) || g_ids_ascending rows) 222.
+  tag (negb (expansion_applies d) || g_ids_ascending rows) 222 ++
+  (* the doseid guards on the working frame of add_time_after_dose (the expanded frame with ADDL) *)
+  match tad_frame d with
+  | Ok fr => let anf := ann s (map fst fr) in
+             tag (g_tie_one_reset_group anf) 223 ++ tag (g_no_obs_between_tied_doses anf) 224 ++ tag (g_chrono anf) 225
+  | Err _ => []
+  end.
 
 Definition verdict (c : case) : list nat := corr c ++ oracle c ++ guard_tags c.
